@@ -293,3 +293,194 @@ func sameKind(a, b ast.Node) bool {
 	}
 	return false
 }
+
+// ---------------------------------------------------------------------------------------------
+// Roles: locals and parameters are identified in atoms by their role in the declaring function
+// (receiver, parameter index, named result index, k-th local of its type), never by their name,
+// so renaming a variable does not change any formula.
+
+// Role returns the rename-independent identity of a non-field variable.
+func (c *Ctx) Role(v *types.Var) string {
+	if v == nil {
+		return "?"
+	}
+	if r, ok := c.cache["role"]; ok {
+		if s, ok := r.(map[*types.Var]string)[v]; ok {
+			return s
+		}
+	} else {
+		c.cache["role"] = map[*types.Var]string{}
+		c.cache["roleNames"] = map[string]string{}
+	}
+	roles := c.cache["role"].(map[*types.Var]string)
+	names := c.cache["roleNames"].(map[string]string)
+	set := func(s string) string {
+		roles[v] = s
+		names[s] = v.Name()
+		return s
+	}
+	d := c.Prog.EnclosingDecl(v.Pos())
+	if d == nil {
+		return set(v.Name())
+	}
+	fn := core.FuncName(d.Obj)
+	info := d.Pkg.TypesInfo
+	if d.Decl.Recv != nil && len(d.Decl.Recv.List) == 1 {
+		for _, n := range d.Decl.Recv.List[0].Names {
+			if info.Defs[n] == types.Object(v) {
+				return set(fn + ":recv")
+			}
+		}
+	}
+	fieldIdx := func(fl *ast.FieldList) int {
+		if fl == nil {
+			return -1
+		}
+		i := 0
+		for _, f := range fl.List {
+			for _, n := range f.Names {
+				if info.Defs[n] == types.Object(v) {
+					return i
+				}
+				i++
+			}
+			if len(f.Names) == 0 {
+				i++
+			}
+		}
+		return -1
+	}
+	if i := fieldIdx(d.Decl.Type.Params); i >= 0 {
+		return set(sprintf("%s:p%d", fn, i))
+	}
+	if i := fieldIdx(d.Decl.Type.Results); i >= 0 {
+		return set(sprintf("%s:res%d", fn, i))
+	}
+	// parameter or result of a literal
+	litK := 0
+	found := ""
+	ast.Inspect(d.Decl.Body, func(n ast.Node) bool {
+		if l, ok := n.(*ast.FuncLit); ok {
+			litK++
+			if found == "" {
+				if i := fieldIdx(l.Type.Params); i >= 0 {
+					found = sprintf("%s:lit%d.p%d", fn, litK, i)
+				} else if i := fieldIdx(l.Type.Results); i >= 0 {
+					found = sprintf("%s:lit%d.res%d", fn, litK, i)
+				}
+			}
+		}
+		return found == ""
+	})
+	if found != "" {
+		return set(found)
+	}
+	// k-th local of its type, in declaration order
+	ts := types.TypeString(v.Type(), func(p *types.Package) string { return p.Name() })
+	k := 0
+	for id, o := range info.Defs {
+		lv, ok := o.(*types.Var)
+		if !ok || lv.IsField() || id.Pos() < d.Decl.Pos() || id.Pos() >= d.Decl.End() {
+			continue
+		}
+		if lv.Pos() < v.Pos() && types.TypeString(lv.Type(), func(p *types.Package) string { return p.Name() }) == ts {
+			k++
+		}
+	}
+	return set(sprintf("%s:%s#%d", fn, ts, k+1))
+}
+
+// Pretty replaces role tokens by the variable names they stand for (for messages only).
+func (c *Ctx) Pretty(s string) string {
+	m, ok := c.cache["roleNames"].(map[string]string)
+	if !ok {
+		return s
+	}
+	var keys []string
+	for k := range m {
+		keys = append(keys, k)
+	}
+	sort.Slice(keys, func(i, j int) bool { return len(keys[i]) > len(keys[j]) })
+	for _, k := range keys {
+		s = strings.ReplaceAll(s, k, m[k])
+	}
+	return s
+}
+
+// structural look-ups used by rule rows -----------------------------------------------------------
+
+// paramWhere returns the first parameter of d whose type satisfies pred.
+func paramWhere(d *core.FuncDecl, pred func(types.Type) bool) *types.Var {
+	for _, p := range paramVars(d) {
+		if p != nil && pred(p.Type()) {
+			return p
+		}
+	}
+	return nil
+}
+
+func isBoolType(t types.Type) bool { return isBasic(t, types.IsBoolean) }
+
+func isErrorType(t types.Type) bool {
+	return types.Identical(t, types.Universe.Lookup("error").Type())
+}
+
+// localWhere returns the first local variable (declaration order) declared inside node whose
+// definition satisfies pred.
+func localWhere(d *core.FuncDecl, within ast.Node, pred func(v *types.Var, id *ast.Ident) bool) *types.Var {
+	var best *types.Var
+	var bestPos token.Pos
+	for id, o := range d.Pkg.TypesInfo.Defs {
+		v, ok := o.(*types.Var)
+		if !ok || v.IsField() || id.Pos() < within.Pos() || id.Pos() >= within.End() {
+			continue
+		}
+		if pred(v, id) && (best == nil || id.Pos() < bestPos) {
+			best, bestPos = v, id.Pos()
+		}
+	}
+	return best
+}
+
+// assignedFromCall returns the variable that receives result idx of the first call inside `within`
+// that satisfies pred (x := call, x, y := call, x = call).
+func assignedFromCall(d *core.FuncDecl, within ast.Node, idx int, pred func(call *ast.CallExpr) bool) *types.Var {
+	var out *types.Var
+	ast.Inspect(within, func(n ast.Node) bool {
+		if out != nil {
+			return false
+		}
+		var lhs []ast.Expr
+		var rhs []ast.Expr
+		switch s := n.(type) {
+		case *ast.AssignStmt:
+			lhs, rhs = s.Lhs, s.Rhs
+		case *ast.ValueSpec:
+			for _, nm := range s.Names {
+				lhs = append(lhs, nm)
+			}
+			rhs = s.Values
+		default:
+			return true
+		}
+		if len(rhs) != 1 || idx >= len(lhs) {
+			return true
+		}
+		call, ok := unparen(rhs[0]).(*ast.CallExpr)
+		if !ok || !pred(call) {
+			return true
+		}
+		out = identVar(lhs[idx], &core.Frame{Pkg: d.Pkg})
+		return true
+	})
+	return out
+}
+
+// callSel reports a call of the form X.name(...).
+func callSel(call *ast.CallExpr, name string) (ast.Expr, bool) {
+	sel, ok := unparen(call.Fun).(*ast.SelectorExpr)
+	if !ok || sel.Sel.Name != name {
+		return nil, false
+	}
+	return sel.X, true
+}
